@@ -180,11 +180,8 @@ func (r *Run) report(pd *propertyDef, update bool) int {
 	}
 	if update {
 		nb := &Baseline{Property: r.Property, Counts: counts, Note: base.Note}
-		for _, ob := range failing {
-			if !ob.Canary && ob.Kind != "vacuity" && ob.Kind != "count" {
-				nb.Excluded = append(nb.Excluded, regexp.QuoteMeta(ob.Name))
-			}
-		}
+		// obligations that do not discharge are never excluded by an update: they stay violations until the
+		// code or the machinery is repaired (the excluded list is maintained by hand and is empty)
 		nb.Excluded = append(nb.Excluded, base.Excluded...)
 		sort.Strings(nb.Excluded)
 		nb.Excluded = dedup(nb.Excluded)
@@ -215,6 +212,7 @@ func (r *Run) report(pd *propertyDef, update bool) int {
 	// violations
 	_ = os.MkdirAll(filepath.Join(verifDir, "replays"), 0o755)
 	sort.Slice(failing, func(i, j int) bool { return failing[i].Name < failing[j].Name })
+	r.unitWitnesses(failing) // illustration only: sets Ground where a failing input was found and replayed (witness_units.go)
 	nviol := 0
 	for _, ob := range failing {
 		nviol++
@@ -270,6 +268,12 @@ func (r *Run) writeReplay(ob *Obligation) string {
 	if ob.Ground != "" {
 		m["failing_input"] = ob.Ground
 		m["note"] = "failing input replayed against the real code"
+		// a witness of the unit searches is stored in structured form, with the command that reproduces it from this file
+		if input, command, ok := groundForReplay(ob.Ground, path); ok {
+			m["failing_input"] = input
+			m["replay_command"] = command
+			m["note"] = "the obligation does not discharge on this tree (that is the violation); failing_input illustrates it: a concrete input, found by the witness search and replayed against the real code, on which the code and the property disagree"
+		}
 	}
 	if ob.Query != "" && len(ob.Query) < 300000 {
 		m["smt_query"] = ob.Query + "(check-sat)\n"
